@@ -68,6 +68,8 @@ def AtomParser(string=None):
         exp = Fraction(1)
     if string.startswith(f" {SYMBOL_SYSTEM_UNIT}"):
         unitid = string[1:]
+        if unitid not in QUANTITY_UNITS:
+            raise Exception('Unknown unit', unitid, string_bak)
         return Atom(1.0, {unitid: exp})
     # parse unit symbol
     bases = [u for u in UNIT_STANDARD.keys() if string.endswith(u)]
